@@ -61,7 +61,8 @@ structure Err where
 
 structure Cfg where
   onlyOne : Bool := true
-  genNode : Bool := false     -- gen.Parser: `AsNode` integer test
+  fastInt : Bool := false     -- oj.Parser/gen.Parser: the pinned integer fast loop (see `stepAct`, numDigit)
+  reader : Bool := false      -- io.Reader entry point (BOM rule differs)
   deriving Inhabited
 
 structure St where
@@ -70,13 +71,14 @@ structure St where
   starts : List Bool := []     -- container stack, innermost first; true = array
   stack : List Item := []      -- build stack, top first
   docs : List JV := []         -- documents delivered so far, newest first
-  tmp : Bytes := []
+  tmp : Bytes := []            -- pending string bytes, newest first (reversed)
   ri : Nat := 0
   rn : Nat := 0
   num : Num := {}
   line : Nat := 1
   pos : Nat := 0               -- absolute offset of the byte being read
   nl : Int := -1               -- absolute offset of the last newline
+  inFast : Bool := false       -- inside the integer fast loop that `valDigit` starts (same read buffer)
   deriving Inhabited
 
 def St.err (s : St) (k : ErrKind) : Err := { line := s.line, col := (s.pos : Int) - s.nl, kind := k }
@@ -119,7 +121,7 @@ def St.add (s : St) (n : JV) : Except Err St :=
   | .error w => .error (s.err (.fault w))
 
 def St.addNum (s : St) : Except Err St :=
-  s.add (s.num.asNum cfg.genNode).toJV
+  s.add s.num.asNum.toJV
 
 /-- mode after a comma: key mode inside an object, comma mode inside an array -/
 def afterCommaMode (s : St) : Mode :=
@@ -150,26 +152,26 @@ def stepAct (s : St) (b : UInt8) : Except Err (St × Bool) :=
   | .skipNewline => .ok ({ s with line := s.line + 1, nl := s.pos }, true)
   | .colonColon => .ok ({ s with mode := .value }, true)
   | .skipChar => .ok (s, true)
-  | .strOk => .ok ({ s with tmp := s.tmp ++ [b] }, false)
+  | .strOk => .ok ({ s with tmp := b :: s.tmp }, false)
   | .keyQuote => .ok ({ s with tmp := [], mode := .string, nextMode := .colon }, true)
   | .afterComma => .ok ({ s with mode := afterCommaMode s }, true)
   | .valQuote => .ok ({ s with tmp := [], mode := .string, nextMode := .after }, true)
   | .numComma =>
-    match s.addNum cfg with
+    match s.addNum with
     | .error e => .error e
     | .ok s' =>
       match s'.starts with
       | [] => .error (s'.err .comma)
       | _ => .ok ({ s' with mode := afterCommaMode s' }, false)
   | .strSlash => .ok ({ s with mode := .esc }, true)
-  | .escOk => .ok ({ s with tmp := s.tmp ++ [T.escByte b], mode := .string }, true)
+  | .escOk => .ok ({ s with tmp := T.escByte b :: s.tmp, mode := .string }, true)
   | .openObject => .ok ({ s with starts := false :: s.starts, mode := .key1, stack := .obj [] :: s.stack }, true)
   | .closeObject =>
     match s.starts with
     | false :: rest =>
       if T.fin s.mode = .v then .error (s.err .objClose)
       else
-        let r := if T.fin s.mode = .n then s.addNum cfg else .ok s
+        let r := if T.fin s.mode = .n then s.addNum else .ok s
         match r with
         | .error e => .error e
         | .ok s1 =>
@@ -181,14 +183,15 @@ def stepAct (s : St) (b : UInt8) : Except Err (St × Bool) :=
             | .ok s2 => .ok ({ s2 with mode := .after }, false)
     | _ => .error (s.err .objClose)
   | .val0 => .ok ({ s with mode := .zero, num := s.num.reset }, false)
-  | .valDigit => .ok ({ s with mode := .digit, num := { s.num.reset with i := (b - 48).toUInt64 } }, false)
+  | .valDigit =>
+    .ok ({ s with mode := .digit, num := { s.num.reset with i := (b - 48).toUInt64 }, inFast := cfg.fastInt }, false)
   | .valNeg => .ok ({ s with mode := .neg, num := { s.num.reset with neg := true } }, true)
   | .escU => .ok ({ s with mode := .u, rn := 0, ri := 0 }, true)
   | .openArray => .ok ({ s with starts := true :: s.starts, stack := .arrMark :: s.stack, mode := .value }, true)
   | .closeArray =>
     match s.starts with
     | true :: rest =>
-      let r := if T.fin s.mode = .n then s.addNum cfg else .ok s
+      let r := if T.fin s.mode = .n then s.addNum else .ok s
       match r with
       | .error e => .error e
       | .ok s1 =>
@@ -211,20 +214,28 @@ def stepAct (s : St) (b : UInt8) : Except Err (St × Bool) :=
     else .ok ({ s with mode := .expSign }, true)
   | .strQuote =>
     if T.act s.nextMode 58 = .colonColon then
-      .ok ({ s with mode := s.nextMode, stack := .key s.tmp :: s.stack }, false)
+      .ok ({ s with mode := s.nextMode, stack := .key s.tmp.reverse :: s.stack }, false)
     else
-      match ({ s with mode := s.nextMode } : St).add (.str s.tmp) with
+      match ({ s with mode := s.nextMode } : St).add (.str s.tmp.reverse) with
       | .error e => .error e
       | .ok s' => .ok (s', false)
   | .numZero => .ok ({ s with mode := .zero }, false)
-  | .numDigit => .ok ({ s with num := s.num.addDigit b }, false)
+  | .numDigit =>
+    -- Inside the fast loop of the parsers (digits that follow the first one in the same read buffer)
+    -- the switch to text happens as soon as `BigLimit <= I`, one digit earlier than `AddDigit`
+    -- would: 19-digit integers from 9223372036854775800 up come back as text. The suite pins this
+    -- (known finding C02/C03 int19); the model carries it so that the tie stays exact.
+    if s.inFast then
+      if BigLimit ≤ s.num.i then .ok ({ s with num := s.num.fillBig.addDigit b, inFast := false }, false)
+      else .ok ({ s with num := { s.num with i := s.num.i * 10 + (b - 48).toUInt64 } }, false)
+    else .ok ({ s with num := s.num.addDigit b }, false)
   | .negDigit => .ok ({ s with num := s.num.addDigit b, mode := .digit }, false)
   | .numSpc =>
-    match s.addNum cfg with
+    match s.addNum with
     | .error e => .error e
     | .ok s' => .ok ({ s' with mode := .after }, false)
   | .numNewline =>
-    match s.addNum cfg with
+    match s.addNum with
     | .error e => .error e
     | .ok s' => .ok ({ s' with line := s'.line + 1, nl := s'.pos, mode := .after }, false)
   | .expSign =>
@@ -235,7 +246,7 @@ def stepAct (s : St) (b : UInt8) : Except Err (St × Bool) :=
   | .uOk =>
     let ri := s.ri + 1
     let rn := s.rn * 16 + hexDigitVal b
-    if ri = 4 then .ok ({ s with ri := ri, rn := rn, tmp := s.tmp ++ utf8Enc rn, mode := .string }, true)
+    if ri = 4 then .ok ({ s with ri := ri, rn := rn, tmp := (utf8Enc rn).reverse ++ s.tmp, mode := .string }, true)
     else .ok ({ s with ri := ri, rn := rn }, true)
   | .tokenOk =>
     match stepToken T s b with
@@ -259,7 +270,11 @@ def step (s : St) (b : UInt8) : Except Err St :=
   | .error e => .error e
   | .ok (s', cont) =>
     let s'' := if cont then s' else deliver T cfg s'
-    .ok { s'' with pos := s''.pos + 1 }
+    let keep := match T.act s.mode b with
+      | .numDigit => s''.inFast
+      | .valDigit => s''.inFast
+      | _ => false
+    .ok { s'' with pos := s''.pos + 1, inFast := keep }
 
 def runBytes (s : St) : Bytes → Except Err St
   | [] => .ok s
@@ -272,7 +287,7 @@ def runBytes (s : St) : Bytes → Except Err St
 def finish (s : St) : Except Err (List JV) :=
   if !s.starts.isEmpty || T.fin s.mode = .absent then .error (s.err .incomplete)
   else if T.fin s.mode = .n then
-    match s.addNum cfg with
+    match s.addNum with
     | .error e => .error e
     | .ok s' =>
       let d := match s'.stack.getLast? with
@@ -294,17 +309,44 @@ def bomRule (bs : Bytes) : BomRes :=
     else if b1 = 0xBB && b2 = 0xBF then .strip r else .bad
   | _ => .keep
 
-/-- whole-buffer entry point: list of documents delivered, or an error -/
-def run (bs : Bytes) : Except Err (List JV) :=
-  match bomRule bs with
-  | .bad => .error { line := 1, col := 3, kind := .byte }
-  | .strip r =>
-    match runBytes T cfg {} r with
+/-- BOM rule of the reader entry points: a first buffer of more than three bytes that starts with a
+BOM loses it; nothing else is looked at (no "expected BOM" error) -/
+def bomRuleReader (bs : Bytes) : BomRes :=
+  match bs with
+  | 0xEF :: 0xBB :: 0xBF :: r => if r.isEmpty then .keep else .strip r
+  | _ => .keep
+
+/-- the reader entry points top the first read up until four bytes are there when it starts with 0xEF -/
+def topUp : List Bytes → List Bytes
+  | c :: d :: rest =>
+    if c.length < 4 && c.head? = some 0xEF then topUp ((c ++ d) :: rest) else c :: d :: rest
+  | cs => cs
+termination_by cs => cs.length
+
+/-- the read buffers one after the other; a buffer boundary ends the integer fast loop -/
+def runChunks (s : St) : List Bytes → Except Err St
+  | [] => .ok s
+  | c :: rest =>
+    match runBytes T cfg s c with
     | .error e => .error e
-    | .ok s => finish T cfg s
-  | .keep =>
-    match runBytes T cfg {} bs with
-    | .error e => .error e
-    | .ok s => finish T cfg s
+    | .ok s' => runChunks { s' with inFast := false } rest
+
+/-- entry point: list of documents delivered, or an error. `chunks` are the successive read results
+(one chunk for the `[]byte` entry points). -/
+def run (chunks : List Bytes) : Except Err (List JV) :=
+  let cs := if cfg.reader then topUp (chunks.filter (!·.isEmpty)) else chunks
+  match cs with
+  | [] => finish T {}
+  | c :: rest =>
+    match (if cfg.reader then bomRuleReader c else bomRule c) with
+    | .bad => .error { line := 1, col := 3, kind := .byte }
+    | .strip r =>
+      match runChunks T cfg {} (r :: rest) with
+      | .error e => .error e
+      | .ok s => finish T s
+    | .keep =>
+      match runChunks T cfg {} (c :: rest) with
+      | .error e => .error e
+      | .ok s => finish T s
 
 end OjgVerif.Json
